@@ -191,14 +191,14 @@ Proof.
       assert (G : forall l acc, all_ok N1 (ceqs (fst acc)) = true -> cunits (fst acc) = cunits s0 ->
                   all_ok N1 (ceqs (fst (fold_left F l acc))) = true /\ cunits (fst (fold_left F l acc)) = cunits s0) end.
     { induction l as [|y l IH]; intros acc Ha Hc; cbn [fold_left]; [split; assumption|]. apply IH.
-      - destruct acc as [st rp]. cbn [fst] in *. destruct (ode_def st y) as [ode|] eqn:Ho; [|exact Ha].
+      - destruct acc as [st rp]. unfold free_step. cbn [fst] in *. destruct (ode_def st y) as [ode|] eqn:Ho; [|exact Ha].
         destruct (q_lhs ode) as [x|x t']; [exact Ha|]. destruct (Nat.eqb t' v); [|exact Ha].
         destruct (move_ode_rhs st ode y v) as [s' w] eqn:Hm.
         assert (Hode : qty_ok N1 (q_rhs ode) = true) by (unfold ode_def in Ho; apply (all_ok_find N1 _ _ ode Ha Ho)).
         destruct (move_ode_ok N1 st ode y v s' w Ha Hode Hm) as [A _]. cbn [fst ceqs].
         rewrite all_ok_app, A. unfold all_ok. cbn [forallb q_rhs].
         unfold cf. rewrite (qty_ok_ediv N1 (var w) (cqnext s) cfq N (qty_ok_var N1 w) Hu). reflexivity.
-      - destruct acc as [st rp]. cbn [fst] in *. destruct (ode_def st y) as [ode|] eqn:Ho; [|exact Hc].
+      - destruct acc as [st rp]. unfold free_step. cbn [fst] in *. destruct (ode_def st y) as [ode|] eqn:Ho; [|exact Hc].
         destruct (q_lhs ode) as [x|x t']; [exact Hc|]. destruct (Nat.eqb t' v); [|exact Hc].
         destruct (move_ode_rhs st ode y v) as [s' w] eqn:Hm. unfold move_ode_rhs in Hm. injection Hm as <- _. cbn [fst cunits]. exact Hc. }
     apply G; assumption. }
